@@ -308,6 +308,36 @@ func aloneBatch(cases []Case) []string {
 	return res
 }
 
+// genAloneImports: scenarios in which every generator renders references into packages whose last path segments clash
+func genAloneImports(r *Rng, i int) Case {
+	s := genScenario(r, pipeProfile{extras: false, prev: false, maxPkgs: 4, allChance: 70})
+	s.Globals = append(s.Globals, PTag{"gengo:rec", []string{""}})
+	s.Custom = map[string][]PItem{}
+	id := 0
+	var keys []string
+	for k := range s.Reacts {
+		keys = append(keys, k)
+	}
+	sort.Strings(keys)
+	for _, k := range keys {
+		v := s.Reacts[k]
+		if v[0] != 'o' && v[0] != 's' {
+			continue
+		}
+		// references into packages whose last path segments clash: which local name a path gets depends on
+		// what else the same file imports — and must depend on nothing else
+		var items []PItem
+		for n := 1 + r.Intn(3); n > 0; n-- {
+			id++
+			ref := Pick(r, c05Refs)
+			items = append(items, PItem{K: "ref", S: fmt.Sprintf("var I%d *@ref\n", id), Path: ref.path, Name: ref.name})
+		}
+		s.Reacts[k] = string(v[0]) + "b" + v[2:]
+		s.Custom[k] = items
+	}
+	return &aloneCase{pipeCase: pipeCase{S: s, Clauses: "calls"}}
+}
+
 var c05Refs = []struct{ path, name string }{
 	{"example.com/x/codec", "Options"}, {"example.com/y/codec", "Options"}, {"example.org/a/v2", "T"}, {"example.org/b/v2", "T"},
 	{"k8s.io/api/core/v1", "Pod"}, {"k8s.io/api/apps/v1", "Deployment"}, {"text/template", "Template"}, {"html/template", "Template"},
@@ -643,10 +673,24 @@ func runHistoryHere(c *histCase) *histOut {
 		switch f[0] {
 		case "edit":
 			os.WriteFile(filepath.Join(pd, "edit.go"), []byte(fmt.Sprintf("package %s\n\nconst edited = %d\n", s.Pkgs[pi].Dir, counter)), 0o644)
+		case "link":
+			// a source file that is a symbolic link to a file outside the package directory; every `link` points it elsewhere
+			shared := filepath.Join(dir, "_shared")
+			os.MkdirAll(shared, 0o755)
+			name := fmt.Sprintf("%s_v%d.go", s.Pkgs[pi].Dir, counter)
+			os.WriteFile(filepath.Join(shared, name), []byte(fmt.Sprintf("package %s\n\nconst linked = %d\n", s.Pkgs[pi].Dir, counter)), 0o644)
+			os.Remove(filepath.Join(pd, "linked.go"))
+			os.Symlink(filepath.Join("..", "_shared", name), filepath.Join(pd, "linked.go"))
+		case "linkedit":
+			// the file behind the link changes, the link itself does not
+			if t, err := os.Readlink(filepath.Join(pd, "linked.go")); err == nil {
+				os.WriteFile(filepath.Join(pd, t), []byte(fmt.Sprintf("package %s\n\nconst linked = %d\n", s.Pkgs[pi].Dir, 1000+counter)), 0o644)
+			}
 		case "add":
 			os.WriteFile(filepath.Join(pd, fmt.Sprintf("added%d.txt", counter%3)), []byte(fmt.Sprint(counter)), 0o644)
 		case "del":
 			os.Remove(filepath.Join(pd, "edit.go"))
+			os.Remove(filepath.Join(pd, "linked.go"))
 			for i := 0; i < 3; i++ {
 				os.Remove(filepath.Join(pd, fmt.Sprintf("added%d.txt", i)))
 			}
@@ -887,7 +931,11 @@ func genHistory(r *Rng) *histCase {
 	n := 4 + r.Intn(7)
 	for i := 0; i < n; i++ {
 		p := r.Intn(k)
-		switch r.Intn(14) {
+		switch r.Intn(17) {
+		case 14, 15:
+			c.Ops = append(c.Ops, fmt.Sprintf("link:%d", p))
+		case 16:
+			c.Ops = append(c.Ops, fmt.Sprintf("linkedit:%d", p))
 		case 0, 1, 2, 3:
 			c.Ops = append(c.Ops, "run")
 		case 4:
@@ -948,7 +996,7 @@ func init() {
 	}})
 	register(&Property{ID: "C05", Streams: []*Stream{
 		{
-			Name: "alone-together", Quick: 60, Thorough: 600, New: func() Case { return &aloneCase{} },
+			Name: "alone-together", Quick: 150, Thorough: 900, New: func() Case { return &aloneCase{} },
 			Gen: func(r *Rng, i int) Case {
 				s := genScenario(r, pipeProfile{extras: true, prev: false, maxPkgs: 4, allChance: 60})
 				for k, v := range s.Reacts { // stateful rendering everywhere: counters and helper flags must restart per package
@@ -962,42 +1010,21 @@ func init() {
 			Rule: pipeRuleCommon + "each scenario is run once as given and once per package with that package as the only entrypoint; oracle: the package's generated files are byte-identical in both; the model's bodies (fresh state per package) are compared as well",
 		},
 		{
-			Name: "alone-imports", Quick: 50, Thorough: 500, New: func() Case { return &aloneCase{} },
-			Gen: func(r *Rng, i int) Case {
-				s := genScenario(r, pipeProfile{extras: false, prev: false, maxPkgs: 4, allChance: 70})
-				s.Globals = append(s.Globals, PTag{"gengo:rec", []string{""}})
-				s.Custom = map[string][]PItem{}
-				id := 0
-				var keys []string
-				for k := range s.Reacts {
-					keys = append(keys, k)
-				}
-				sort.Strings(keys)
-				for _, k := range keys {
-					v := s.Reacts[k]
-					if v[0] != 'o' && v[0] != 's' {
-						continue
-					}
-					// references into packages whose last path segments clash: which local name a path gets depends on
-					// what else the same file imports — and must depend on nothing else
-					var items []PItem
-					for n := 1 + r.Intn(3); n > 0; n-- {
-						id++
-						ref := Pick(r, c05Refs)
-						items = append(items, PItem{K: "ref", S: fmt.Sprintf("var I%d *@ref\n", id), Path: ref.path, Name: ref.name})
-					}
-					s.Reacts[k] = string(v[0]) + "b" + v[2:]
-					s.Custom[k] = items
-				}
-				return &aloneCase{pipeCase: pipeCase{S: s, Clauses: "calls"}}
-			},
+			Name: "alone-imports", Quick: 120, Thorough: 800, New: func() Case { return &aloneCase{} },
+			Gen: genAloneImports,
 			BatchRun: aloneBatch, ShrinkBudget: 40, MaxShrinks: 4,
 			Rule: pipeRuleCommon + "as alone-together, with every generator rendering 1–3 references into a menu of 10 packages whose last path segments clash pairwise (x/codec·y/codec, a/v2·b/v2, core/v1·apps/v1, text/template·html/template, math/rand·crypto/rand): the local import names chosen for a package's file must be the same alone and together",
 		},
 	}})
 	register(&Property{ID: "C04", Streams: []*Stream{
 		{
-			Name: "determinism", Quick: 80, Thorough: 800, New: func() Case { return &detCase{} },
+			Name: "regenerate-alone", Quick: 60, Thorough: 500, New: func() Case { return &aloneCase{} },
+			Gen:      genAloneImports,
+			BatchRun: aloneBatch, ShrinkBudget: 40, MaxShrinks: 4,
+			Rule: pipeRuleCommon + "every generator renders 1–3 references into packages whose last path segments clash pairwise; each scenario is run once as given and, in other processes, once per package with that package as the only entrypoint: regenerating one package later, alone, must reproduce its files byte for byte (what a process generated before must not leak into the local import names)",
+		},
+		{
+			Name: "determinism", Quick: 160, Thorough: 1000, New: func() Case { return &detCase{} },
 			Gen: func(r *Rng, i int) Case {
 				s := genScenario(r, pipeProfile{extras: true, prev: false, locals: true, maxPkgs: 4, allChance: 70})
 				for k, v := range s.Reacts { // some generators dump maps with non-string keys
@@ -1012,7 +1039,7 @@ func init() {
 		},
 	}})
 	register(&Property{ID: "C08", Streams: []*Stream{
-		pipeStream("decision", 300, 3000, "calls sum", pipeProfile{extras: true, prev: true, maxPkgs: 4, allChance: 85},
+		pipeStream("decision", 500, 4000, "calls sum", pipeProfile{extras: true, prev: true, maxPkgs: 4, allChance: 85},
 			pipeRuleCommon+"previous gengo.sum none / corrupt / per package correct, stale or missing, Force on/off, directories that cannot be hashed (dangling symlink); oracle: a package is skipped only if Force is off and its recorded hash equals its current one, the sum afterwards is one sorted line per local package",
 			func(r *Rng, s *PScn) {
 				if r.Chance(12) {
@@ -1041,10 +1068,10 @@ func init() {
 			Rule: "random path → hash maps written with Save and read back with Load (real files); compared with the model's Bytes/Load; keys or values that are empty or contain white space are outside the domain (agreement only)",
 		},
 		{
-			Name: "history", Quick: 40, Thorough: 400, New: func() Case { return &histCase{} },
+			Name: "history", Quick: 80, Thorough: 600, New: func() Case { return &histCase{} },
 			Gen:      func(r *Rng, i int) Case { return genHistory(r) },
 			BatchRun: histBatch, ShrinkBudget: 40, MaxShrinks: 4,
-			Rule:     "histories of 4–10 steps over 2–3 packages from {edit, add, delete a file, delete a generated file, delete / corrupt gengo.sum, run, run with Force, run failing in p, run on entrypoint p without All} followed by three plain runs, on one persistent real module; oracle: ground truth from the harness's own content ids of the directories at load time (not from hashes): skipped ⇔ unchanged since the sum was recorded, failed runs keep the sum, three runs converge",
+			Rule:     "histories of 4–10 steps over 2–3 packages from {edit, add, delete a file, create / retarget a symbolic link to a source file kept outside the package directory, edit the file behind the link, delete a generated file, delete / corrupt gengo.sum, run, run with Force, run failing in p, run on entrypoint p without All} followed by three plain runs, on one persistent real module; oracle: ground truth from the harness's own content ids of the directories at load time (not from hashes): skipped ⇔ unchanged since the sum was recorded, failed runs keep the sum, three runs converge",
 		},
 	}})
 }
